@@ -128,6 +128,11 @@ def reconnect_oracle(ix: Index, scn: dict) -> list[Violation]:
             streak = 0
             streak_known = True
             auth_streak = False
+            if a["seq_closed"] is not None and nxt is None:
+                # the session ended and nothing follows: while started, an attempt is due at once / after the cool-down
+                done0 = next((ev for ev in h if ev[3] == "rl_on_disconnect_done" and ev[0] > a["seq_closed"]), None)
+                if done0 is not None and not _stopped_at(ctl, done0[0]) and not any(x[0] > done0[0] for x in ctl) and end_t - done0[2] > 5.0 + 1.0 and not in_confusion(a["seq_closed"]):
+                    out.append(Violation("retry-missing", "after-session-end", f"session {a['conn']} ended, the disconnect callback returned at {done0[2]:.4f}, the manager is started, but no attempt followed until the end of the run at {end_t:.4f}"))
             if a["seq_closed"] is None or nxt is None:
                 continue
             done = next((ev for ev in h if ev[3] == "rl_on_disconnect_done" and ev[0] > a["seq_closed"]), None)
@@ -204,6 +209,18 @@ def reconnect_oracle(ix: Index, scn: dict) -> list[Violation]:
             tm = _timer_due(h, attempts, later[0], t)
             if not tm:
                 out.append(Violation("record-nonmatching-triggered", "", f"non-matching mDNS record at {t:.6f} was followed by an attempt in the same instant"))
+    # --- never listening while a session is established -------------------------------------
+    for seq, t, d in records:
+        if d["n_listeners"] <= 0 or in_confusion(seq):
+            continue
+        est = [a for a in attempts if a["connected"] and ix.connected_seq[a["conn"]] < seq and (a["seq_closed"] is None or a["seq_closed"] > seq)]
+        if est:
+            out.append(Violation("listening-while-connected", "", f"the manager was registered as mDNS listener at t={t:.4f} while session {est[0]['conn']} was established"))
+            break
+    if ix.audit is not None and not confused:
+        live_end = [a for a in attempts if a["connected"] and a["seq_closed"] is None]
+        if live_end and any(z["listeners"] for z in ix.audit["zcs"]):
+            out.append(Violation("listening-while-connected", "end", f"at the end of the run session {live_end[0]['conn']} is established and the manager is still registered as mDNS listener"))
     # --- stop ----------------------------------------------------------------------------
     last_ctl = max(ctl, key=lambda x: x[0]) if ctl else None
     for a, b, kind, t in ctl:
@@ -314,6 +331,14 @@ def gen_c18(rng: random.Random) -> dict:
             events.append({"at": {"t": te}, "do": "dev", "act": {"msgs": [["DisconnectRequest", {}]], "latency": 0.0}})
         else:
             events.append({"at": {"t": te}, "do": "fault", "kind": k, "latency": 0.0})
+    # ... and right after a session was announced, while the on_connect callback may still be suspended
+    for _ in range(rng.randint(0, 2)):
+        k = pick(rng, ["dev_disconnect", "fin", "rst"])
+        trig = {"on": "rl_on_connect", "nth": rng.randint(1, 3), "delay": pick(rng, [0.0, 0.01, 0.1, 0.3])}
+        if k == "dev_disconnect":
+            events.append({"at": trig, "do": "dev", "act": {"msgs": [["DisconnectRequest", {}]], "latency": 0.0}})
+        else:
+            events.append({"at": trig, "do": "fault", "kind": k, "latency": 0.0})
     # mDNS records: random instants and the instants of retry timers / callbacks
     for _ in range(rng.randint(0, 6)):
         pool = [{"type": "PTR", "alias": f"{name}._esphomelib._tcp.local."}, {"type": "A", "name": f"{name}.local."}, {"type": "PTR", "alias": "other._esphomelib._tcp.local."}, {"type": "A", "name": "other.local."}]
@@ -335,7 +360,7 @@ def gen_c18(rng: random.Random) -> dict:
         events.append({"at": trig, "do": "fault", "kind": "mdns", "records": recs, "phase": pick(rng, ["pre", "post"])})
     # control script
     rl_zc = pick(rng, [None, None, "zeroconf", "async"]) if client["zeroconf"] is None else None
-    steps: list[dict] = [{"do": "rl.new", "name": None if use_mdns_addr else name, "zeroconf": rl_zc, "cb_delay": pick(rng, [{}, {}, {"error": 0.3}, {"disconnect": 0.7, "connect": 0.2}, {"error": 1.0, "disconnect": 0.1}])}, {"do": "rl.start"}]
+    steps: list[dict] = [{"do": "rl.new", "name": None if use_mdns_addr else name, "zeroconf": rl_zc, "cb_delay": pick(rng, [{}, {}, {"error": 0.3}, {"disconnect": 0.7, "connect": 0.2}, {"error": 1.0, "disconnect": 0.1}, {"connect": 0.5}, {"connect": 2.0, "error": 0.1}])}, {"do": "rl.start"}]
     ends_started = True
     tt = 0.0
     for _ in range(rng.randint(0, 3)):
